@@ -2,7 +2,7 @@
    Directives: ExtrOcamlBasic only (bool, option, list, prod, unit, sumbool -> OCaml natives);
    N, Z, positive stay Coq datatypes. *)
 From Coq Require Extraction ExtrOcamlBasic.
-From Schwifty Require Import Lib.Base Lib.Regex Model.Clean Model.Data Model.Iban Model.Bic.
+From Schwifty Require Import Lib.Base Lib.Regex Model.Clean Model.Data Model.Iban Model.Bic Model.Bban.
 From Schwifty Require Import Gen.Env Gen.IbanData Gen.IbanCfg Gen.BicCfg.
 From Schwifty Require Import Spec.Iso13616 Spec.Iso9362 Spec.Defects.
 
@@ -45,10 +45,17 @@ Definition s_bic_verdict (strict : bool) (t : text) : option (list exn) :=
   let s := clean the_env t in
   if iso9362_ok iso3166 strict s then None else Some (filter (fun ex => bic_defect iso3166 strict ex s) all_exn).
 
+Definition x_bban_component := bban_component the_table.
+Definition x_iban_cc := iban_country_code.
+Definition x_iban_dd := iban_checksum_digits.
+Definition x_iban_bban := iban_bban the_env.
+Definition x_text_eqb := text_eqb.
+
 Extraction Language OCaml.
 Set Extraction KeepSingleton.
 Extraction "extract/model.ml"
   x_clean x_iban_new x_iban_validate x_iban_is_valid x_iban_from_bban x_iban_formatted
   x_pat_apply x_chars_pat x_chars_method x_format_method x_row_regex
   s_iso_ok s_check_digits s_conforms
-  x_bic_new x_bic_validate x_bic_is_valid x_bic_formatted x_bic_parts x_bic_pat s_iso9362_ok s_iban_verdict s_bic_verdict.
+  x_bic_new x_bic_validate x_bic_is_valid x_bic_formatted x_bic_parts x_bic_pat s_iso9362_ok s_iban_verdict s_bic_verdict
+  x_bban_component x_iban_cc x_iban_dd x_iban_bban x_text_eqb.
